@@ -245,9 +245,11 @@ Fire(m, s, me) ==
 
 \* Head::select / rank / utility (const Control&): an event, no ops
 FireReport(m, s, me) == IF ~HasUser(s) THEN m ELSE [m EXCEPT !.ev = Append(@, Event(m, s, me))]
-SelectOf(m, s) == IF HasUser(s) THEN m.sc.sel[s]  ELSE 1          \* EmptyT::select returns 0
-RankOf(m, s)   == IF HasUser(s) THEN m.sc.rank[s] ELSE 0          \* EmptyT::rank returns Rank{0}
-UtilOf(m, s)   == IF HasUser(s) THEN m.sc.util[s] ELSE ROne       \* EmptyT::utility returns 1
+\* anonymous heads (S_<.., EmptyT<>> in state_2.inl): wrapSelect returns INVALID_PRONG, wrapRank Rank{},
+\* wrapUtility Utility{} (= 0), although EmptyT::select/rank/utility would return 0 / 0 / 1
+SelectOf(m, s) == IF HasUser(s) THEN m.sc.sel[s]  ELSE 0
+RankOf(m, s)   == IF HasUser(s) THEN m.sc.rank[s] ELSE 0
+UtilOf(m, s)   == IF HasUser(s) THEN m.sc.util[s] ELSE RZero
 
 \* PlanControlT::Region (ScopedRegion) : enter / leave
 ScopeIn(m, s)        == [m EXCEPT !.rid = St[s].region, !.rs = s, !.rz = St[s].size]
@@ -626,7 +628,9 @@ RECURSIVE DeepEnter(_, _), DeepExit(_, _), DeepReenter(_, _), DeepChangeToReques
 
 StateEnter(m, s)   == Fire(m, s, "enter")
 StateReenter(m, s) == Fire(m, s, "reenter")
-StateExit(m, s)    == LET m1 == Fire(m, s, "exit") IN [m1 EXCEPT !.succ = @ \ {s}, !.fail = @ \ {s}]
+\* S_::deepExit clears the state's marks; the EmptyT specialisation does not
+StateExit(m, s)    == IF ~HasUser(s) THEN m
+                      ELSE LET m1 == Fire(m, s, "exit") IN [m1 EXCEPT !.succ = @ \ {s}, !.fail = @ \ {s}]
 
 WideLifeO(m, s, op, i) ==
     IF i > St[s].width THEN m
@@ -671,8 +675,7 @@ DeepReenter(m, s) ==
                 m1 == StateReenter(ScopeIn(m, s), s)
                 m2 == IF a = r THEN DeepReenter(m1, Kid(s, a))
                       ELSE LET mx == DeepExit(m1, Kid(s, a))
-                               my == [mx EXCEPT !.res[c] = IF r = mx.res[c] THEN 0 ELSE a,    \* see D2
-                                                !.act[c] = r]
+                               my == [mx EXCEPT !.res[c] = a, !.act[c] = r]
                            IN DeepEnter(my, Kid(s, r))
             IN ScopeOut([m2 EXCEPT !.req[c] = 0], m)
       [] St[s].kind = "O" ->
@@ -773,7 +776,7 @@ Reset(m) ==
                          !.act = [c \in Compos |-> 0], !.res = [c \in Compos |-> 0],
                          !.req = [c \in Compos |-> 0], !.oreq = [o \in Orthos |-> {}], !.rem = {}]
         m3 == DeepRequestChange(m2, 1, [k |-> "restart", i |-> 0])
-    IN DeepEnter(m3, 1)
+    IN UpdateActivity(DeepEnter(m3, 1))
 
 ---------------------------------------------------------------------------
 (* update / react / query (composite.inl, orthogonal.inl, reactions.inl)   *)
@@ -794,7 +797,7 @@ DeepUpdate(m, s, phase) ==
                    ELSE WideUpdateO(mm, s, phase, 1, TSNone)
     IN IF phase # "postUpdate" THEN
             LET mh == Fire(mi, s, phase)
-                h  == mh.ts
+                h  == IF HasUser(s) THEN mh.ts ELSE TSNone      \* the EmptyT head returns TaskStatus{}
                 m1 == [mh EXCEPT !.hst[r] = TSOr(@, h)]
                 m2 == Sub(m1)
                 m3 == [m2 EXCEPT !.sst[r] = TSOr(@, m2.rv)]
@@ -803,7 +806,7 @@ DeepUpdate(m, s, phase) ==
             LET m1 == Sub(mi)
                 m2 == [m1 EXCEPT !.sst[r] = TSOr(@, m1.rv)]
                 mh == Fire(m2, s, phase)
-                h  == mh.ts
+                h  == IF HasUser(s) THEN mh.ts ELSE TSNone      \* the EmptyT head returns TaskStatus{}
                 m3 == [mh EXCEPT !.hst[r] = TSOr(@, h)]
             IN [ScopeOut(m3, m) EXCEPT !.rv = h]
 
@@ -821,7 +824,7 @@ DeepReact(m, s, phase) ==
         mi == ScopeIn(m, s)
         Sub(mm) == IF St[s].kind = "C" THEN DeepReact(mm, Kid(s, mm.act[St[s].compo]), phase)
                    ELSE WideReactO(mm, s, phase, 1, TSNone)
-        HeadCb(mm) == LET mh == Fire(mm, s, phase) IN [mh EXCEPT !.rv = mh.ts]
+        HeadCb(mm) == LET mh == Fire(mm, s, phase) IN [mh EXCEPT !.rv = IF HasUser(s) THEN mh.ts ELSE TSNone]
         headFirst == IF phase = "postReact" THEN Cfg.order = "BottomUp" ELSE Cfg.order = "TopDown"
     IN IF mi.consumed THEN [ScopeOut(mi, m) EXCEPT !.rv = TSNone]
        ELSE IF phase # "postReact" THEN
@@ -879,7 +882,8 @@ StateStatus(m, s) == IF s \in m.fail THEN [r |-> 2, ot |-> FALSE]
 
 \* planSucceeded / planFailed : user override, or the default of A_<> (control.succeed() / control.fail())
 FirePlan(m, s, me) ==
-    IF HasUser(s) /\ s \notin Cfg.defplan THEN Fire(m, s, me)
+    IF ~HasUser(s) THEN m                                   \* EmptyT specialisation: wrapPlan* do nothing
+    ELSE IF s \notin Cfg.defplan THEN Fire(m, s, me)
     ELSE LET m1 == ApplyOp([m EXCEPT !.org = s], me, <<IF me = "planSucceeded" THEN "succeed" ELSE "fail", s>>)
          IN [m1 EXCEPT !.org = m.org]
 
